@@ -261,7 +261,7 @@ func (e *Engine) appendSlice(s *State, a, b *SliceV, ty types.Type) Value {
 
 // ---------------------------------------------------------------- which functions may be interpreted
 
-var lazyZeroGlobals = map[string]bool{"errors": true, "sync": true, "sync/atomic": true}
+var lazyZeroGlobals = map[string]bool{"errors": true, "sync": true, "sync/atomic": true, "encoding/binary": true, "github.com/IrineSistiana/mosproxy/internal/verifrt": true}
 
 var interpPkgPrefixes = []string{
 	"github.com/IrineSistiana/mosproxy",
